@@ -861,3 +861,169 @@ def replay_c_sched(d):
         if got != exp:
             return True, f"{cc}: frames sent per call {got}, reference automaton {exp} (state {d['last_call']},{d['last_send']} times {times})"
     return False, "scheduler follows the reference automaton"
+
+
+# ---------------------------------------------------------------- generated C++, natively
+_CXX_MAIN = r'''
+#include <cstdio>
+#include <cstdlib>
+#include <cstring>
+extern "C" unsigned long enc(const unsigned char* args, unsigned char* out);
+extern "C" unsigned long dec(const unsigned char* in, unsigned long n, unsigned char* area);
+int main(int argc, char** argv) {
+    static unsigned char in[65536], out[65536];
+    unsigned long n = 0;
+    for (const char* p = argv[2]; p[0] && p[1]; p += 2) { unsigned v; sscanf(p, "%2x", &v); in[n++] = (unsigned char)v; }
+    unsigned long m = argv[1][0] == 'e' ? enc(in, out) : dec(in, n, out);
+    for (unsigned long i = 0; i < m; i++) printf("%02x", out[i]);
+    printf("\n");
+    return 0;
+}
+'''
+
+
+def _native_cxx(d, mode, inbytes, compilers=("clang++-14", "g++")):
+    import os
+
+    from . import cxx
+    from .native import Scratch, run
+
+    sch = _schema(d)
+    outs = []
+    with Scratch() as dd:
+        cxx.generate_cpp(d["schema_text"], dd)
+        open(os.path.join(dd, "harness.cpp"), "w").write(cxx.harness_source(sch))
+        open(os.path.join(dd, "main.cpp"), "w").write(_CXX_MAIN)
+        for cc in compilers:
+            rc, so, se = run([cc, "-std=c++17", "-O1", "-w", "-I", dd, "-I", cxx.THIRD_PARTY, "harness.cpp", "main.cpp",
+                              "-o", os.path.join(dd, "a.out")], cwd=dd, timeout=900)
+            if rc:
+                outs.append((cc, "compile-error", se[-600:]))
+                continue
+            hexin = "".join(f"{b:02x}" for b in inbytes) or "00"
+            rc, so, se = run([os.path.join(dd, "a.out"), mode, hexin if inbytes else ""], cwd=dd, timeout=60)
+            outs.append((cc, rc, so.strip() if rc == 0 else f"crashed rc={rc} {se[-200:]}"))
+    return outs
+
+
+def replay_cpp_compile(d):
+    outs = _native_cxx(d, "e", [0] * 64)
+    bad = [o for o in outs if o[1] == "compile-error"]
+    if bad:
+        return True, f"generated C++ does not compile with {bad[0][0]}: {bad[0][2][-300:]}"
+    return False, "compiles"
+
+
+def replay_cpp_encode(d):
+    from . import cxx
+
+    sch = _schema(d)
+    area = []
+    v = d["value"]
+
+    def conv(x):
+        if isinstance(x, dict) and "__float__" in x:
+            return (x["__float__"], x["bits"])
+        if isinstance(x, dict):
+            return {k: conv(y) for k, y in x.items()}
+        if isinstance(x, list):
+            return [conv(y) for y in x]
+        return x
+    import z3
+
+    def tofp(x):
+        return x
+    val = conv(v)
+
+    def floats_to_bv(t, x):
+        k = t[0]
+        if k in ("f32", "f64"):
+            return z3.BitVecVal(x[1], 32 if k == "f32" else 64)
+        if k in ("arr", "dyn"):
+            return [floats_to_bv(t[1], y) for y in x]
+        if k == "opt":
+            return None if x is None else floats_to_bv(t[1], x)
+        if k == "struct":
+            return {fn: floats_to_bv(ft, x[fn]) for fn, _, ft in sch.struct(t[1])}
+        return x
+    cxx.marshal(sch, ("struct", d["top"]), floats_to_bv(("struct", d["top"]), val), area)
+    outs = _native_cxx(d, "e", area)
+    want = "".join(f"{b:02x}" for b in d["expected_bytes"])
+    for cc, rc, so in outs:
+        if rc == "compile-error":
+            return True, f"does not compile with {cc}: {so[-200:]}"
+        if so != want:
+            return True, f"{cc}: Encode({v}) = {so}, canonical bytes {want}"
+    return False, "Encode gives the canonical bytes"
+
+
+def replay_cpp_decode(d):
+    outs = _native_cxx(d, "d", d["bytes"])
+    want = "".join(f"{b:02x}" for b in d["expected_area"])
+    for cc, rc, so in outs:
+        if rc == "compile-error":
+            return True, f"does not compile with {cc}: {so[-200:]}"
+        if so != want:
+            return True, f"{cc}: Decode({d['bytes']}) dumps {so}, reference decoding {want}"
+    return False, "Decode gives the reference value"
+
+
+def replay_cpp_carrier(d):
+    import fcp_cpp.generator as G
+
+    c = G._to_highest_power_of_two(d["N"])
+    if c not in (8, 16, 32, 64) or c < d["N"]:
+        return True, f"_to_highest_power_of_two({d['N']}) = {c}"
+    return False, "ok"
+
+
+def replay_cpp_permuted(d):
+    """Native Encode of the same value through the headers generated from the schema and from its twin."""
+    outs = []
+    for key, text in (("schema", d["schema_text"]), ("twin", d["twin_text"])):
+        dd = {"schema": d[key], "schema_text": text, "top": d["top"], "value": d["value"], "expected_bytes": []}
+        import z3
+
+        from . import cxx
+        sch = _schema(dd)
+        area = []
+
+        def conv(t, x):
+            k = t[0]
+            if k in ("f32", "f64"):
+                return z3.BitVecVal(x["bits"], 32 if k == "f32" else 64)
+            if k in ("arr", "dyn"):
+                return [conv(t[1], y) for y in x]
+            if k == "opt":
+                return None if x is None else conv(t[1], x)
+            if k == "struct":
+                return {fn: conv(ft, x[fn]) for fn, _, ft in sch.struct(t[1])}
+            return x
+        cxx.marshal(sch, ("struct", d["top"]), conv(("struct", d["top"]), d["value"]), area)
+        r = _native_cxx(dd, "e", area, compilers=("clang++-14",))
+        outs.append(r[0][2] if r and r[0][1] == 0 else f"failed: {r}")
+    if outs[0] != outs[1]:
+        return True, f"Encode({d['value']}) = {outs[0]} with the schema, {outs[1]} with its declaration-permuted twin"
+    return False, "same bytes"
+
+
+def replay_c_permuted(d):
+    outs = []
+    for text in (d["schema_text"], d["twin_text"]):
+        dd = dict(d, schema_text=text, expected={"id": 0, "dlc": 0, "data": 0})
+        from .native import snake
+        P, s = d["top"], snake(d["top"])
+        sets = []
+        for fn, x in d["fields"].items():
+            K = d["carriers"][fn]
+            ty = {8: "uint8_t", 16: "uint16_t", 32: "uint32_t", 64: "uint64_t"}[K]
+            sets.append(f"  {{ {ty} raw = ({ty}){x}ULL; memcpy(&m.{fn}, &raw, sizeof raw); }}")
+        main = ('#include <stdio.h>\n#include <string.h>\n#include "ecu_can.h"\nint main(void) {\n'
+                f"  CanMsg{P} m; memset(&m, 0, sizeof m);\n" + "\n".join(sets) +
+                f"\n  CanFrame f = can_encode_msg_{s}(&m);\n  unsigned long long w; memcpy(&w, f.data, 8);\n"
+                '  printf("%u %u %llu\\n", (unsigned)f.id, (unsigned)f.dlc, w);\n  return 0;\n}\n')
+        r = _native_c(text, main, compilers=("clang-14",))
+        outs.append(r[0][2].strip() if r and r[0][1] == 0 else f"failed: {r}")
+    if outs[0] != outs[1]:
+        return True, f"fields {d['fields']}: frame {outs[0]} with the schema, {outs[1]} with its declaration-permuted twin"
+    return False, "same frame"
